@@ -443,10 +443,14 @@ func (m *vfT) Cleanup(f func())         { m.cleanups = append(m.cleanups, f) }
 // end runs the registered cleanups last-in-first-out, as testing does when
 // the test execution finishes.
 func (m *vfT) end() {
-	for i := len(m.cleanups) - 1; i >= 0; i-- {
-		m.cleanups[i]()
+	// as testing.(*common).runCleanup: pop the last one until none is left, so a
+	// function registered by a cleanup (a Match* call made there) runs as well
+	for len(m.cleanups) > 0 {
+		last := len(m.cleanups) - 1
+		f := m.cleanups[last]
+		m.cleanups = m.cleanups[:last]
+		f()
 	}
-	m.cleanups = nil
 }
 
 // mark / since give the observation of a single call.
